@@ -32,16 +32,22 @@ import (
 var targets = []string{
 	"verifyIssuer", "verifyTimeConstraint", "verifyExpiration", "verifyIssuedAt", "verifyNotBefore", "verifyAudience", "JWT.Verify",
 	"TraefikOidc.determineScheme", "TraefikOidc.determineHost", "TraefikOidc.determineExcludedURL", "TraefikOidc.isAllowedDomain",
-	"isLocalRedirectTarget", "buildFullURL", "TraefikOidc.extractGroupsAndRoles", "splitIntoChunks", "TraefikOidc.isUserAuthenticated",
+	"isLocalRedirectTarget", "buildFullURL", "TraefikOidc.extractGroupsAndRoles", "splitIntoChunks",
+	"TraefikOidc.VerifyJWTSignatureAndClaims", "TraefikOidc.isUserAuthenticated",
 }
 
 // functions of /repo that are not translated but called by translated ones: they become fields of the instance record
 // (`Go.Inst`), i.e. parameters the theorems quantify over.  name as written at the call site -> result types
 var externals = map[string][]string{
-	"parseJWT":                      {"jwt", "error"},
-	"t.extractClaimsFunc":           {"obj", "error"},
-	"t.VerifyJWTSignatureAndClaims": {"error"},
+	"parseJWT":             {"jwt", "error"},
+	"t.extractClaimsFunc":  {"obj", "error"},
+	"t.jwkCache.GetJWKS":   {"jwks", "error"}, // (its arguments are fields of the instance: the field of `Go.Inst` takes none)
+	"jwkToPEM":             {"pem", "error"},
+	"verifySignature":      {"error"},
 }
+
+// externals whose arguments are not passed on (constant per instance)
+var externalNoArgs = map[string]string{"t.jwkCache.GetJWKS": "getJWKS"}
 
 // getters of *SessionData read by translated functions (fields of `Go.Sess`)
 var sessGetters = map[string]string{"GetAuthenticated": "bool", "GetAccessToken": "str", "GetRefreshToken": "str", "GetEmail": "str"}
@@ -120,6 +126,16 @@ func leanType(t string) string {
 		return "(List (Go.Str × Bool))"
 	case "sess":
 		return "Go.Sess"
+	case "jwks":
+		return "Go.JWKSet"
+	case "jwk":
+		return "Go.JWK"
+	case "jwkp":
+		return "(Option Go.JWK)"
+	case "jwklist":
+		return "(List Go.JWK)"
+	case "pem":
+		return "Go.Pem"
 	}
 	fail(nil, "no Lean type for %q", t)
 	return ""
@@ -163,6 +179,10 @@ func goType(e ast.Expr) string {
 				return "jwt"
 			case "SessionData":
 				return "sess"
+			case "JWK":
+				return "jwkp"
+			case "JWKSet":
+				return "jwks"
 			}
 		}
 	case *ast.SelectorExpr:
@@ -335,6 +355,10 @@ func (c *ctx) expr(e ast.Expr) (string, string) {
 			return "(!" + s + ")", "bool"
 		case token.SUB:
 			return "(-" + s + ")", t
+		case token.AND:
+			if t == "jwk" {
+				return "(some " + s + ")", "jwkp"
+			}
 		}
 	case *ast.BinaryExpr:
 		return c.binary(x)
@@ -396,7 +420,7 @@ func (c *ctx) binary(x *ast.BinaryExpr) (string, string) {
 			}
 		}
 		s, t := c.expr(x.X)
-		if t == "error" {
+		if t == "error" || t == "jwkp" {
 			if x.Op == token.NEQ {
 				return s + ".isSome", "bool"
 			}
@@ -452,6 +476,12 @@ func (c *ctx) selector(x *ast.SelectorExpr) (string, string) {
 		return r + "." + x.Sel.Name, "set"
 	case "inst.refreshGracePeriod":
 		return r + "." + x.Sel.Name, "dur"
+	case "inst.issuerURL", "inst.clientID":
+		return r + "." + x.Sel.Name, "str"
+	case "jwks.Keys":
+		return r + ".Keys", "jwklist"
+	case "jwk.Kid", "jwk.Kty":
+		return r + "." + x.Sel.Name, "str"
 	}
 	fail(x, "unsupported field %s of a %s", x.Sel.Name, t)
 	return "", ""
@@ -545,11 +575,58 @@ func (c *ctx) call(x *ast.CallExpr) (string, string) {
 		as, _ := c.args(x)
 		return "(Go.timeUnix " + as[0] + " " + as[1] + ")", "time"
 	case "fmt.Errorf", "errors.New":
-		if l, ok := x.Args[0].(*ast.BasicLit); ok && l.Kind == token.STRING {
-			s, _ := strconv.Unquote(l.Value)
-			return "(some " + lit(s) + ")", "error"
+		l, ok := x.Args[0].(*ast.BasicLit)
+		if !ok || l.Kind != token.STRING {
+			fail(x, "error message that is not a literal")
 		}
-		fail(x, "error message that is not a literal")
+		f, _ := strconv.Unquote(l.Value)
+		// the text of the error: literal pieces, `%w` of an error = that error's text, `%s` of a string = the string; any other
+		// verb (numbers, times, `%v`) stays in the text as written - no translated function decides on those parts
+		var parts []string
+		rest := f
+		argi := 1
+		for {
+			i := strings.Index(rest, "%")
+			if i < 0 || i+1 >= len(rest) {
+				if rest != "" {
+					parts = append(parts, lit(rest))
+				}
+				break
+			}
+			verb := rest[i+1]
+			piece := rest[:i]
+			done := false
+			if (verb == 'w' || verb == 's') && argi < len(x.Args) {
+				func() {
+					defer func() { recover() }()
+					a, t := c.expr(x.Args[argi])
+					if verb == 'w' && t == "error" {
+						if piece != "" {
+							parts = append(parts, lit(piece))
+						}
+						parts = append(parts, "(Go.errText "+a+")")
+						done = true
+					} else if verb == 's' && t == "str" {
+						if piece != "" {
+							parts = append(parts, lit(piece))
+						}
+						parts = append(parts, a)
+						done = true
+					}
+				}()
+			}
+			if !done {
+				parts = append(parts, lit(rest[:i+2]))
+			}
+			if verb != '%' {
+				argi++
+			}
+			rest = rest[i+2:]
+		}
+		if len(parts) == 0 {
+			return "(some " + lit("") + ")", "error"
+		}
+		return "(some (" + strings.Join(parts, " ++ ") + "))", "error"
 	case "strings.HasPrefix", "strings.HasSuffix":
 		as, _ := c.args(x)
 		return "(Go." + map[string]string{"strings.HasPrefix": "hasPrefix", "strings.HasSuffix": "hasSuffix"}[fun] + " " + as[0] + " " + as[1] + ")", "bool"
@@ -613,6 +690,10 @@ func (c *ctx) call(x *ast.CallExpr) (string, string) {
 	if id, ok := x.Fun.(*ast.Ident); ok {
 		if g := byName[id.Name]; g != nil && g.decl.Recv == nil {
 			return c.callTranslated(g, x, "")
+		}
+		if rts, ok := externals[fun]; ok && len(rts) == 1 && c.recv != "" {
+			as, _ := c.args(x)
+			return "(" + c.recv + "." + fun + " " + strings.Join(as, " ") + ")", rts[0]
 		}
 	}
 	fail(x, "unsupported call %s", fun)
@@ -697,6 +778,8 @@ func zero(t string) string {
 		return "([] : List Go.Str)"
 	case "anys":
 		return "([] : List Go.Any)"
+	case "jwkp":
+		return "(none : Option Go.JWK)"
 	}
 	fail(nil, "zero value of a %s", t)
 	return ""
@@ -742,6 +825,13 @@ func (c *ctx) assign(s *ast.AssignStmt, k func() string) string {
 		case *ast.CallExpr:
 			fun := src(r.Fun)
 			if rts, ok := externals[fun]; ok && len(rts) == 2 {
+				if field, ok := externalNoArgs[fun]; ok {
+					if c.recv == "" {
+						fail(r, "call of %s outside a method of the instance", fun)
+					}
+					a, b := bind(s.Lhs[0], rts[0]), bind(s.Lhs[1], rts[1])
+					return fmt.Sprintf("let (%s, %s) := %s.%s\n%s", a, b, c.recv, field, k())
+				}
 				callee := ""
 				if sel, isSel := r.Fun.(*ast.SelectorExpr); isSel {
 					rv, _ := c.expr(sel.X)
@@ -1030,8 +1120,8 @@ func (c *ctx) stmt(s ast.Stmt, k func() string) string {
 		var elemT string
 		var varExpr ast.Expr
 		switch t {
-		case "anys", "strs":
-			elemT = map[string]string{"anys": "any", "strs": "str"}[t]
+		case "anys", "strs", "jwklist":
+			elemT = map[string]string{"anys": "any", "strs": "str", "jwklist": "jwk"}[t]
 			if x.Key != nil {
 				if id, ok := x.Key.(*ast.Ident); !ok || id.Name != "_" {
 					fail(x, "range with an index variable")
